@@ -12,7 +12,7 @@ def run(ctx):
     ctx.lean_proofs("Props.C34")
     ctx.rule("c34: every interleaving of the per-thread step sequences of the model (relay: validate,get,add,set[,respond]; claim sender: iterator-read, seal), executed sequentially on the real functions with fresh stores: "
              "two relays (identical / distinct; allowance 5, 2, 1), one or two relays racing the claim sender (3150 schedules each), three relays sampled every 40th schedule (thorough: all 34650 per family and two relays + claim sender with a separate respond step); "
-             "plus serial multi-session scenarios (relays strictly one at a time for 3-4 sessions of one servicer whose evidence LRU holds 1-3 entries, allowance 2-4, 10-23 operations mixing fresh relays, replays of answered relays, the claim loop's iterator (flush + snapshot) and seals with that snapshot; compared with the cache-layer model and judged against the answers the node gave); plus free-running rounds: 16-64 goroutines call the real keeper.HandleRelay with 4-16 distinct requests (identical ones race), optionally with a sealing goroutine, in a child process (thorough: built with -race). "
+             "plus the keeper-level family: real keeper.HandleRelay with a hosted-chain HTTP stub that performs the interleaved action (nested identical / distinct HandleRelay, iterator+seal) during Execute, compared with the schedule the code order validate->store->execute->respond implies; plus serial multi-session scenarios (relays strictly one at a time for 3-4 sessions of one servicer whose evidence LRU holds 1-3 entries, allowance 2-4, 10-23 operations mixing fresh relays, replays of answered relays, the claim loop's iterator (flush + snapshot) and seals with that snapshot; compared with the cache-layer model and judged against the answers the node gave); plus free-running rounds: 16-64 goroutines call the real keeper.HandleRelay with 4-16 distinct requests (identical ones race), optionally with a sealing goroutine, in a child process (thorough: built with -race). "
              "non-trivial = every schedule; distinct = distinct trace line")
     ctx.trust("signature checks, session generation and hashing inside Relay.Validate run for real; only the schedule is imposed",
               "goleveldb memdb + LRU cache of CacheStorage are exercised as they are")
